@@ -252,12 +252,12 @@ pub(crate) fn unit(
                         ));
                     }
 
-                    last = Some(name);
+                    last = Some((name, prefix));
                 }
             }
             OP_POWER => {
                 let (kind, span) = match (last.take(), nodes.next_node()) {
-                    (Some(last), Some(node)) if *node.value() == NUMBER => {
+                    (Some((last, prefix)), Some(node)) if *node.value() == NUMBER => {
                         let span = node.span();
 
                         let power = match str::parse::<i32>(&source[span.range()]) {
@@ -265,7 +265,25 @@ pub(crate) fn unit(
                             Err(error) => return Err(Error::new(*span, BadNumber { error })),
                         };
 
-                        compound.update_power(last, power * current);
+                        // The unit has already been counted once, so raise it
+                        // by what is missing. This accumulates with other
+                        // occurrences of the unit and drops it if nothing is
+                        // left.
+                        let extra = power
+                            .checked_sub(1)
+                            .and_then(|power| power.checked_mul(current));
+
+                        let extra = match extra {
+                            Some(extra) => extra,
+                            None => return Err(Error::new(*span, IllegalPowerTooLarge)),
+                        };
+
+                        if extra != 0 {
+                            // NB: the prefix is the one the unit was just
+                            // added with, so it cannot mismatch.
+                            let _ = compound.update(last, extra, prefix);
+                        }
+
                         continue;
                     }
                     (_, Some(node)) => (*node.value(), *node.span()),
